@@ -248,7 +248,7 @@ def gen_theory_raw(rng):
         xif=float(rng.choice([0.5, 1.0, 2.0, rng.uniform(0.5, 2.0)])),
         matching_order=None if rng.random() < 0.3 else (int(rng.integers(0, 4)), 0),
         n3lo_ad_variation=tuple(int(x) for x in rng.integers(0, 4, 7)),
-        use_fhmruvv=bool(rng.random() < 0.5),
+        use_fhmruvv=[True, False, None][int(rng.integers(3))],  # Optional[bool] with default True: an explicit None must survive
         em_running=bool(rng.random() < 0.5),
         mass_refs=refs,
     )
@@ -536,6 +536,11 @@ def gen_class(rng, specs, depth=0):
         fields.append(("dflt", int, dataclasses.field(default=7)))
         gens["dflt"] = lambda r: 7 if r.random() < 0.5 else _scalar(r, "int")
         sig.append("default")
+    if rng.random() < 0.4:
+        # Optional field whose default is not None: an explicit None is a value, not a missing key
+        fields.append(("odflt", typing.Optional[bool], dataclasses.field(default=True)))
+        gens["odflt"] = lambda r: [None, True, False][int(r.integers(3))]
+        sig.append("optional-with-default")
     _class_counter[0] += 1
     cls = dataclasses.make_dataclass(f"Gen{_class_counter[0]}", fields, bases=(DictLike,))
 
